@@ -454,6 +454,10 @@ func init() {
 	reg("internal/abi.Escape", ident)
 	reg("internal/stringslite.Clone", ident)
 	reg("strings.Clone", ident)
+	reg("time.runtimeNano", func(fr *frame, fn *ssa.Function, args []value) value { return fr.in.ts.BV(64, 1000) })
+	reg("runtime.GOROOT", func(fr *frame, fn *ssa.Function, args []value) value { return "/usr/lib/go" })
+	reg("os.Getenv", func(fr *frame, fn *ssa.Function, args []value) value { return "" })
+	reg("syscall.Getenv", func(fr *frame, fn *ssa.Function, args []value) value { return tuple{"", fr.in.ts.False} })
 	reg("(*sync.Mutex).TryLock", func(fr *frame, fn *ssa.Function, args []value) value { return fr.in.ts.True })
 	reg("(*sync.Pool).Get", func(fr *frame, fn *ssa.Function, args []value) value {
 		p := args[0].(*value)
